@@ -237,14 +237,18 @@ class VQueue(object):
         pass
 
 
+PIPE_CAP = 8      # messages a virtual pipe holds before send() blocks
+
+
 class VConn(object):
     def __init__(self, inq, outq):
         self.inq = inq
         self.outq = outq
 
     def send(self, x):
+        # a pipe has a finite buffer: a send blocks while PIPE_CAP messages are unread
         s = S()
-        s.point(s.current, "send")
+        s.point(s.current, "send", lambda: len(self.outq) < PIPE_CAP)
         self.outq.append(pickle.dumps(x))
 
     def recv(self):
